@@ -285,10 +285,9 @@ func Transform(tokens []Token, withNth []Range) []Token {
 				}
 			}
 			minIdx = util.Max(0, begin-1)
-			for idx := begin; idx <= end; idx++ {
-				if idx >= 1 && idx <= numTokens {
-					parts = append(parts, tokens[idx-1].text)
-				}
+			// Only iterate over the existing fields; the bounds can be arbitrarily large
+			for idx := util.Max(begin, 1); idx <= util.Min(end, numTokens); idx++ {
+				parts = append(parts, tokens[idx-1].text)
 			}
 		}
 		// Merge multiple parts
